@@ -111,3 +111,68 @@ Example C04_table_nonvacuous :
             (flat_map (fun p => flat_map (fun i => map (fun c => (p, i, c)) all_kinds) all_pos) all_kinds)) = 436.
 Proof. exact table_nonvacuous. Qed.
 Print Assumptions C04_table_nonvacuous.
+
+(* ============ (5) which parts of a query are evaluated in the caller's scope: PreTranslator, create_extractors, extract_vars
+   (Model/C04Ext.v: the marking as coded, hand-written and tied node for node to the real PreTranslator on every run;
+    Model/C04Eval.v: an evaluation semantics over Python integers for names, literals, + - *, unary -, not, and/or, comparison
+    chains, conditional expressions) *)
+Require Import PonyV.Model.C04Ext PonyV.Model.C04Eval PonyV.Proofs.C04ExtProofs PonyV.Proofs.C04EvalProofs.
+Open Scope nat_scope.
+
+(* soundness of the marking: every external of a well-formed query body - in the context that holds where it stands: the query
+   variables ctx plus the parameters of enclosing lambdas - mentions none of those names and contains no lambda, so that evaluating
+   it in the caller's scope is meaningful.  `honest`: no list display / starred argument with an item that mentions such a name
+   (postList / postStarred mark those external unconditionally: known finding, refuted in Findings/C04.v). *)
+Theorem C04_marking_sound_except_known : forall fclass ctx e p c' s,
+  wf e = true -> honest (mark fclass ctx e) = true ->
+  In p (externals fclass ctx e) -> sub_ctx ctx e p = Some (c', s) ->
+  mentions c' s = false /\ lambda_free s = true.
+Proof. exact externals_sound. Qed.
+Print Assumptions C04_marking_sound_except_known.
+
+(* maximality as far as the code intends it: an expression that mentions no name of the context and contains nothing the marking
+   refuses by design (lambda, special function or raw_sql call, empty tuple / f-string / format spec) is external as a whole; unless
+   it is constant or of a kind that is passed piecewise (tuple, list, slice, starred, keyword) it is THE parameter *)
+Theorem C04_marking_maximal : forall fclass ctx e,
+  markable fclass e = true -> mentions ctx e = false ->
+  a_cst (mark fclass ctx e) = false -> nonexternalizable (match e with Node l _ => l end) = false ->
+  In [] (externals fclass ctx e).
+Proof. exact externals_maximal. Qed.
+Print Assumptions C04_marking_maximal.
+
+(* THE FIRST SENTENCE OF THE PROPERTY on the fragment of Model/C04Eval.v: what the extractor of an external s computes - Python's
+   eval of the text ast2src prints for s, in the caller's scope - is the value s has in place, under any binding of the query
+   variables and lambda parameters c' that agrees with the caller's scope on all other names *)
+Theorem C04_bound_value_except_known : forall fclass ctx e p c' s rho_caller rho_place,
+  wf e = true -> honest (mark fclass ctx e) = true ->
+  In p (externals fclass ctx e) -> sub_ctx ctx e p = Some (c', s) -> expr_kindb (ekind s) = true ->
+  (forall x, mem x c' = false -> rho_caller x = rho_place x) ->
+  exists n, forall f, n <= f -> eval_tokens f (print pony_style s) rho_caller = ceval rho_place s.
+Proof. exact bound_value. Qed.
+Print Assumptions C04_bound_value_except_known.
+
+(* create_extractors keeps one extractor per source text: two externals with the same tokens are the same tree *)
+Theorem C04_same_text_same_tree : forall s1 s2,
+  wf s1 = true -> wf s2 = true -> expr_kindb (ekind s1) = true -> expr_kindb (ekind s2) = true ->
+  print pony_style s1 = print pony_style s2 -> s1 = s2.
+Proof. exact same_text_same_tree. Qed.
+Print Assumptions C04_same_text_same_tree.
+
+(* extract_vars: the keys (filter_num, src, code_key) of one call are pairwise distinct; the same text under another filter number
+   is another parameter (evaluated again, in the scope of that filter call) *)
+Theorem C04_varkeys_distinct : forall fn ck srcs, NoDup (varkeys fn ck srcs).
+Proof. exact varkeys_nodup. Qed.
+Print Assumptions C04_varkeys_distinct.
+
+Theorem C04_varkeys_filters_disjoint : forall fn1 fn2 ck srcs1 srcs2 k, fn1 <> fn2 ->
+  In k (varkeys fn1 ck srcs1) -> In k (varkeys fn2 ck srcs2) -> False.
+Proof. exact varkeys_filters_disjoint. Qed.
+Print Assumptions C04_varkeys_filters_disjoint.
+
+(* non-vacuity: `p.x == (a - 1) * 2 + b` with a = 2, b = 0 in the caller's scope: one external, (a - 1) * 2 + b, bound as 2 *)
+Example C04_bound_value_nonvacuous :
+  externals (fun _ => FPlain) [[112]%Z] demo_query = [[1]] /\ sub_ctx [[112]%Z] demo_query [1] = Some ([[112]%Z], demo_ext) /\
+  wf demo_query = true /\ honest (mark (fun _ => FPlain) [[112]%Z] demo_query) = true /\
+  eval_tokens 40 (print pony_style demo_ext) demo_env = Some 2%Z.
+Proof. exact demo_bound. Qed.
+Print Assumptions C04_bound_value_nonvacuous.
